@@ -82,3 +82,17 @@ package transaction
 //@   ensures txnStatusWrites == old(txnStatusWrites) + 1
 //@   ensures err == nil ==> txnSnapshotted(transaction)
 //@   ensures err != nil ==> !transaction.tracked
+
+//@ ghost txnWatches int
+//@ ghost lastCreatedTxn int
+//@ ghost lastCreatedTxnRollbackIndex int
+//@ ghost lastCreatedTxnSync bool
+//@ iface Store.Create(ctx, transaction) (err)
+//@   requires transaction != nil
+//@   modifies transaction.ObjectMeta, transaction.Index, txnCreates, lastCreatedTxn, lastCreatedTxnRollbackIndex, lastCreatedTxnSync
+//@   ensures txnCreates == old(txnCreates) + 1 && lastCreatedTxn == transaction
+//@   ensures lastCreatedTxnSync == (transaction.TransactionStrategy.Synchronicity == configapi.TransactionStrategy_SYNCHRONOUS)
+//@   ensures isType(transaction.Details, "*configapi.Transaction_Rollback") && asType(transaction.Details, "*configapi.Transaction_Rollback") != nil && asType(transaction.Details, "*configapi.Transaction_Rollback").Rollback != nil ==> lastCreatedTxnRollbackIndex == asType(transaction.Details, "*configapi.Transaction_Rollback").Rollback.RollbackIndex
+//@ iface Store.Watch(ctx, ch, opts) (err)
+//@   modifies txnWatches
+//@   ensures txnWatches == old(txnWatches) + 1
